@@ -37,7 +37,9 @@ EXHAUSTIVE_NOTE = "every truncation point and every single-byte flip (0xFF) in t
 ZIP_NAMES = ["a.zip", "b.ZIP", "c.Jar", "d.war", "e.EAR", "f.zip", "lib.jar", "with space.zip", "ünï.zip"]
 OTHER_NAMES = ["data.bin", "zipped.txt", "g.zipx", "h.zip.bak"]
 MEMBER_NAMES = ["m.txt", "dir/", "dir/inner.log", "dir/sub/", "dir/sub/deep.rs", "sp ace.txt", "ünï.md", "big.bin", "e", ".hid",
-                "x.zip", "README", "a/b/c/d.txt", "dir/.inner", ".hd/", ".hd/plain.txt", "a/.b/", "a/.b/c"]
+                "x.zip", "README", "a/b/c/d.txt", "dir/.inner", ".hd/", ".hd/plain.txt", "a/.b/", "a/.b/c",
+                # a dot in a directory name is no extension of what lies below it
+                "v1.2/README", "conf.d/.gitignore", "a.b/", "x.tar.gz", "dir/x."]
 CLOCKS = [None, None, 1706702400, 1709208000, 1698753600, 1703980800]   # real, 2024-01-31, 2024-02-29, 2023-10-31, 2023-12-31
 
 
@@ -185,6 +187,13 @@ def member_rows(case, base, root_text="."):
     return rows, narch
 
 
+def member_ext(filename):
+    """`ext` of a member: what follows the last dot of its LAST component (a leading dot marks a hidden name)."""
+    comp = filename.rstrip("/").rsplit("/", 1)[-1]
+    i = comp.rfind(".")
+    return comp[i + 1:] if i > 0 else ""
+
+
 def where_text(case):
     q = case["q"]
     if q == "where-size":
@@ -289,6 +298,23 @@ def check_search(out, case):
                     elif collections.Counter(rl) - got:
                         out.add("C19/limit/filtered/not-a-submultiset", query=ql)
                     out.classes.append("filter+limit")
+            if case["q"] in ("plain", "where-name", "where-size") and members:
+                # name decomposition of a member: `ext` comes from the member's own (last) name, behind the same
+                # `[archive] ` prefix as its `name`
+                qe = "select path, name, ext from . archives%s%s into list" % (opts, wclause)
+                re_ = c05.run_rows(out, base, qe, 3, "C19", cfg=cfg, clock=case["clock"])
+                if re_ is not None:
+                    bad = []
+                    for pth, nm, ext in re_:
+                        if pth.startswith("[") and "] " in nm:
+                            prefix, inner = nm.split("] ", 1)
+                            if ext != prefix + "] " + member_ext(inner):
+                                bad.append([nm, ext])
+                    if bad:
+                        out.add("C19/member/ext", query=qe, wrong=bad[:5])
+                    out.classes.append("member-ext")
+            if got != want:
+                pass
             elif case["q"] == "plain" and case["n"] <= 3:
                 ql = q1.replace(" into list", " limit %d into list" % case["n"])
                 rl = c05.run_rows(out, base, ql, 6, "C19", cfg=cfg, clock=case["clock"])
@@ -298,7 +324,7 @@ def check_search(out, case):
         out.nontrivial = (narch >= 2 or len(members) >= 3) and sep
         out.classes = sorted({"q=" + case["q"], "archives=%d" % min(narch, 3), "members=%s" % ("0" if not members else "1-2" if len(members) < 3 else "3+")} |
                              ({"config-override"} if case["cfg"] is not None else set()) | ({"depth-window"} if case["window"] else set()) |
-                             ({"clock-pinned"} if case["clock"] else set()))
+                             ({"clock-pinned"} if case["clock"] else set()) | set(out.classes))
         out.sample = {"query": case["q"], "archives_searched": narch, "member_rows": len(members), "config": case["cfg"], "window": case["window"]}
     finally:
         runner.rmtree(cdir)
